@@ -9,27 +9,40 @@ CLAIMED = {
     text="Coq theorems over an executable model of the HTTP/1.x request-head parser (request.c: reqline, header loop, single-header rules, "
          "CL/TE/Host post-checks): duplicate Content-Length never accepted, accepted Content-Length is all-digits <= INT64_MAX, accepted "
          "Transfer-Encoding is exactly chunked on HTTP/1.1; model tied to the code by regenerated header/method tables and by differential "
-         "correspondence against http_header_parse_hoff()+http_request_headers_process() incl. every single-byte corruption of 12 base requests",
-    note="trusted: Coq kernel, c2v.py, extraction, harness glue; IP-literal hosts (inet_pton) are an oracle and skipped; the remaining "
-         "reject-class clauses (NUL, CTL, WS-before-colon, bare LF, missing Host) are decided by the monitor over the correspondence run, "
-         "chunked body decoding and segmentation are covered by the h1 body model where present (see DESIGN 5/C01)",
-    technique="Coq proof over executable model + differential correspondence (extracted OCaml vs C harness)",
+         "correspondence against http_header_parse_hoff()+http_request_headers_process() incl. every single-byte corruption of 12 base requests; "
+         "and over a connection-level model (h1.c: header extent and limits, blank-line rules, Content-Length and chunked body readers with "
+         "trailers, keep-alive reuse): a chunked body is read back exactly for every list of chunks, an accepted message consumes exactly its own "
+         "bytes and the rest is parsed independently, nothing follows a refusal; that model is compared with the running server on pipelines "
+         "of valid, corrupted and smuggling-shaped requests under one-piece, random and limit-aimed TCP segmentation",
+    note="trusted: Coq kernel, c2v.py, extraction, harness glue, the RFC 9112 reader in props/h1conn.py used as oracle for concrete violations; "
+         "IP-literal hosts (inet_pton) are an oracle and skipped; the remaining reject-class clauses (NUL, CTL, WS-before-colon, bare LF, "
+         "missing Host) are decided by the monitors over the correspondence runs; timeouts are not modelled (a stream that ends inside a "
+         "message is 'no response owed'); request-body streaming modes other than the default are not exercised (see DESIGN 5/C01, 11.9)",
+    technique="Coq proof over executable model + differential correspondence (extracted OCaml vs C harness and vs the running server)",
     design="5/C01"),
  "C02": dict(
     text="Coq theorems over an executable model of the URL->path pipeline (burl_normalize, buffer_urldecode_path, buffer_path_simplify, "
          "http_request_parse_target, docroot join): for every target and every http-parseopts set an accepted target yields an absolute path "
          "without dot segments, and joining it to a dot-free root stays under the root; exhaustive differential correspondence over an "
-         "18-symbol metacharacter alphabet x 145 parseopt sets",
-    note="trusted: Coq kernel, c2v.py, extraction, harness glue; symlinks and kernel path resolution are outside the model; alias/vhost/"
-         "x-sendfile/webdav containment is tied by correspondence where modelled (see DESIGN 5/C02)",
-    technique="Coq proof over executable model + exhaustive differential correspondence (extracted OCaml vs C harness)",
+         "18-symbol metacharacter alphabet x 145 parseopt sets; and over models of the mapping stages behind it (mod_alias_remap, simple-vhost, "
+         "evhost, userdir, X-Sendfile/X-Sendfile2, WebDAV Destination, the symlink walk, and their composition in http_response_prepare): "
+         "each stage keeps the path dot-free and under the alias target / server root / basepath / x-sendfile-docroot / source base directory, "
+         "composed into one theorem from request target to physical.path; the X-Sendfile and Destination step order is re-read from the source; "
+         "tied in-process (roots_h.c) and on 17 running-server configurations whose debug.log-request-handling output is compared line by line",
+    note="trusted: Coq kernel, c2v.py (incl. the step-order reader c2v_roots.py), extraction, harness glue; kernel path resolution is outside the "
+         "model (containment is lexical; with follow-symlink disabled the walk theorem covers links); host-strict mode relies on the hypothesis "
+         "that an accepted Host has no '/' and no leading '.', which the server runs check on every logged authority; evhost dot-freeness and "
+         "force-lowercase-filenames are covered by correspondence only; getpwnam-based userdir is not modelled (see DESIGN 5/C02, 11.9)",
+    technique="Coq proof over executable model + exhaustive differential correspondence (extracted OCaml vs C harness and vs the running server)",
     design="5/C02"),
  "C15": dict(
     text="Coq theorems over an executable model of http_range.c (all Range strings, all lengths): ranges in bounds, coalescing "
          "never loses a satisfiable range, 416 iff none satisfiable, single-part slice exactness, ignore rules; model tied to the "
-         "code by regenerated constants and by differential correspondence against the real http_range_rfc7233() on mem/file chunk layouts",
-    note="trusted: Coq kernel, c2v.py, extraction (ExtrOcamlBasic only), harness glue; strtoll/chunkqueue modelled; multipart framing and "
-         "conditional-GET/date rules checked by correspondence + client-side parser, not yet by theorem",
+         "code by regenerated constants and by differential correspondence against the real http_range_rfc7233() on mem/file chunk layouts; "
+         "HTTP-date model (IMF-fixdate, RFC 850, asctime; timegm) with parse-back theorems for every instant and the theorem that "
+         "If-Modified-Since does not depend on the spelling of the date, the comparison direction being re-read from http_date.c",
+    note="trusted: Coq kernel, c2v.py, extraction (ExtrOcamlBasic only), harness glue; strtoll/chunkqueue modelled; multipart framing "
+         "checked by correspondence + client-side parser, not by theorem; RFC 850 two-digit years are proved for the pivot year the harness pins",
     technique="Coq proof over executable model + differential correspondence (extracted OCaml vs C harness)",
     design="5/C15"),
  "C20": dict(
